@@ -25,8 +25,10 @@ HEAVY = 24
 def sizes(tier, rng):
     # quick: two of {16,17,32,33}; 33 is always one of them: the tinverse/tmatmul block algorithm only exists above 32
     if tier == "quick":
-        return list(range(1, 11)) + sorted([rng.choice([16, 17, 32]), 33])
-    return list(range(1, 21)) + [31, 32, 33]
+        # 48: the block algorithms halve the matrix, so the NESTED (16,32] size classes of the triangular-inverse dispatchers are only
+        # reached from n >= 40 (found by a seeded defect in ut_inverse_dispatcher that n <= 33 cannot see)
+        return list(range(1, 11)) + sorted([rng.choice([16, 17, 32]), 33]) + [48]
+    return list(range(1, 21)) + [31, 32, 33, 40, 48]
 
 
 def mk(t, n, lut, pf, arg):
